@@ -17,7 +17,7 @@ def jobs(tier):
         for mk in ([7, 31, 24, 8, 32, 64, 6, 0, 127] if tier == "quick" else range(128))
     ] + [
         Job("C18.ROUNDTRIP", H, "ob_roundtrip", timeout=3600, path_timeout=120,
-            bounds="Time: every presence mask (128) x low / high / mid values of every field (incl. minute 59, year 1 and 9999, longest part-of-day name); Interval: those x 5 masks for the other end, open ends; "
+            bounds="Time: every presence mask (128) x low / high / mid values of every field (incl. minute 59, year 1 and 9999, longest part-of-day name); Interval: 4 x 4 presence masks x value variants for the two ends, open ends; "
                    "Duration: 3 amounts x 6 units: from_str(str(x)) == x, parse_nb_string(nb_str(x)) == x",
             functions=[fn_id(TY.Time.from_str), fn_id(TY.Time.__str__), fn_id(TY.Interval.from_str), fn_id(TY.Duration.from_str)], stubs=["code untraced; masks and value variants symbolic (solver covers every combination)"], site="from_str"),
         Job("C18.EQ+HASH[Duration]", H, "ob_eq_duration", timeout=300, bounds="two Durations: amount 0..10^4, 6 units, spans symbolic",
